@@ -43,7 +43,7 @@ NumF(x, st) ==
     [] x.k = "lit" -> [st |-> [Push(st, [i |-> "litf", v |-> x.v, dst |-> st.nf]) EXCEPT !.nf = @ + 1], r |-> st.nf]
     [] x.k = "ar" -> LET A == NumF(x.a, st)
                          Bq == NumF(x.b, A.st)
-                         d == IF VM = "m_clobber" THEN A.r ELSE Bq.st.nf          \* mutant: reuse the left operand's register
+                         d == Bq.st.nf
                      IN [st |-> [Push(Bq.st, [i |-> "arith", op |-> x.op, a |-> A.r, b |-> Bq.r, dst |-> d]) EXCEPT !.nf = @ + 1], r |-> d]
 SideC(x, st) ==
   CASE x.k = "col" -> [st |-> st, src |-> [s |-> "col", c |-> x.c]]
@@ -52,14 +52,15 @@ SideC(x, st) ==
 CmpC(op, ty, a, b, st) ==
   LET A == SideC(a, st)
       Bq == SideC(b, A.st)
-  IN [st |-> [Push(Bq.st, [i |-> "cmp", op |-> op, ty |-> ty, a |-> A.src, b |-> Bq.src, dst |-> Bq.st.nm]) EXCEPT !.nm = @ + 1], r |-> Bq.st.nm]
+      d == IF VM = "m_clobber" THEN 0 ELSE Bq.st.nm              \* mutant: every comparison lands in M0 (a live register is clobbered)
+  IN [st |-> [Push(Bq.st, [i |-> "cmp", op |-> op, ty |-> ty, a |-> A.src, b |-> Bq.src, dst |-> d]) EXCEPT !.nm = @ + 1], r |-> d]
 RECURSIVE BoolC(_, _)
 BoolC(q, st) ==
   CASE q.k = "cmp" -> CmpC(q.op, TypeOf(q.a), q.a, q.b, st)
     [] q.k \in {"and", "or"} ->
          LET A == BoolC(q.a, st)
              Bq == BoolC(q.b, A.st)
-             d == IF VM = "m_clobber" THEN A.r ELSE Bq.st.nm
+             d == Bq.st.nm
          IN [st |-> [Push(Bq.st, [i |-> q.k, a |-> A.r, b |-> Bq.r, dst |-> d]) EXCEPT !.nm = @ + 1], r |-> d]
     [] q.k = "not" -> LET A == BoolC(q.a, st) IN [st |-> [Push(A.st, [i |-> "not", a |-> A.r, dst |-> A.st.nm]) EXCEPT !.nm = @ + 1], r |-> A.st.nm]
     [] q.k = "btw" ->
@@ -116,7 +117,7 @@ Refines == (pc = "vm" /\ start >= n) =>
         /\ valid[j] = B(ValidC(e, RowB(j)))
         /\ (want # NULL /\ want # OUT /\ mask[j] # OUT) => mask[j] = want
 \* SSA shape: every destination register is fresh (what makes split_at_mut safe in the code)
-FreshDst == \A a, b \in DOMAIN prog : (a < b /\ VM # "m_clobber") =>
-   (prog[a].i \in {"loadf", "litf", "arith"} /\ prog[b].i \in {"loadf", "litf", "arith"} => prog[a].dst # prog[b].dst)
+IsFIns(x) == x.i \in {"loadf", "litf", "arith"}
+FreshDst == \A a, b \in DOMAIN prog : (a < b /\ IsFIns(prog[a]) = IsFIns(prog[b])) => prog[a].dst # prog[b].dst
 RegsInRange == \A a \in DOMAIN prog : prog[a].dst \in 0..23
 ====
